@@ -182,6 +182,7 @@ total_read += if
 //@@ item src/multipart_crate/lazy.rs struct LazyError vis=pub
 //@@ end
 pub type LazyIoError<'a> = LazyError<'a, io::Error>;
+pub type LazyIoResult<'a, T> = Result<T, LazyIoError<'a>>;
 //@@ item src/multipart_crate/lazy.rs struct Field vis=pub
 //@@ end
 //@@ item src/multipart_crate/lazy.rs enum Data vis=pub
